@@ -70,7 +70,7 @@ def run_check(prop, tier, seed):
         print("KNOWN-FINDING: property=%s %s" % (prop, k))
     if not violation:
         print("OK property=%s tier=%s seed=%d evaluations=%d distinct=%d theorems=%d/%d wall=%.1fs" % (
-            prop, tier, seed, ctx.evaluations, len(ctx.distinct), aud["discharged"], aud["obligations"], ctx.elapsed()))
+            prop, tier, seed, ctx.evaluations, len(ctx.distinct), aud["discharged"], aud["obligations"], ctx.wall()))
         return 0
     payload = {"property": prop, "tier": tier, "seed": seed}
     if new_failures:
